@@ -364,6 +364,8 @@ def pv_sequences(dh: Any, filt: Any = None) -> dict[str, dict[str, list[Any]]]:
 
 def run_c11(case: dict[str, Any]) -> dict[str, Any]:
     """case: {"spans": [...], "batch": b, "time_buffer": tb}"""
+    if "rounds" in case:
+        return run_c11_rounds(case)
     stream = dec_spans(case["spans"])
     b, tb = case["batch"], case["time_buffer"]
     viol: list[dict[str, Any]] = []
@@ -458,6 +460,54 @@ def run_c11(case: dict[str, Any]) -> dict[str, Any]:
     return {"violations": viol, "nontrivial": [key] if nontrivial else [], "sample": case if len(nontrivial) >= 2 else None}
 
 
+def run_c11_rounds(case: dict[str, Any]) -> dict[str, Any]:
+    """case: {"rounds": [[span, ...], [span, ...]], "batch": b, "time_buffer": tb}: ingest + clean, then ingest more into the SAME holder and
+    clean again (the window of a cleaning is derived from everything this holder has saved so far)"""
+    rounds = [dec_spans(r) for r in case["rounds"]]
+    b, tb = case["batch"], case["time_buffer"]
+    viol: list[dict[str, Any]] = []
+    dh = new_holder("sqlite:///:memory:", b, tb)
+    saved: list[Span] = []
+    try:
+        for ri, stream in enumerate(rounds):
+            ingest(dh, stream)
+            saved += stream
+            v0 = view(dh)
+            try:
+                dh.remove_inconsistent_jobs()
+                v1 = view(dh)
+                want1 = spec_remove_inconsistent(v0["nodes"])
+                if v1["nodes"] != want1:
+                    viol.append({"key": "remove_inconsistent_jobs/ensures.exactly_broken_traces",
+                                 "what": f"round {ri}: left {sorted(v1['nodes'])} expected {sorted(want1)}", "case": case})
+                w = spec_window(min(s.start for s in saved), max(s.end for s in saved), tb * MIN) if saved else None
+                try:
+                    dh.remove_jobs_outside_of_time_window()
+                except ValueError:
+                    if w is not None and w[0] < w[1]:
+                        viol.append({"key": "remove_jobs_outside_of_time_window/raises.only_if_window_empty.nonempty",
+                                     "what": f"round {ri}: ValueError although the window {w} is not empty", "case": case})
+                    break
+                if w is None:
+                    break
+                v2 = view(dh)
+                want2 = spec_remove_outside(v1["nodes"], w)
+                if v2["nodes"] != want2:
+                    viol.append({"key": "remove_jobs_outside_of_time_window/ensures.exactly_outside_traces",
+                                 "what": f"round {ri}, window {w}: left {sorted(v2['nodes'])} expected {sorted(want2)}", "case": case})
+                if wf(v2):
+                    viol.append({"key": "remove_jobs_outside_of_time_window/ensures.WF", "what": f"round {ri}: " + "; ".join(wf(v2)), "case": case})
+                dh.update_job_names_by_root_span()
+            except Exception as e:  # noqa: BLE001
+                viol.append({"key": f"cleaning/no_raise.{type(e).__name__}", "what": f"round {ri}: {str(e)[:300]}", "case": case})
+                break
+            if viol:
+                break
+    finally:
+        dispose(dh)
+    return {"violations": viol, "nontrivial": [json.dumps(case["rounds"]) + f"|{b}|{tb}"], "sample": None}
+
+
 def trace_variants(tid: str, name: str) -> list[list[Span]]:
     """small traces: complete / dangling parent / inconsistent names, at several positions on the time grid"""
     out = []
@@ -500,6 +550,15 @@ def domain_c11(tier: str, rng: random.Random) -> Iterable[dict[str, Any]]:
         yield {"spans": enc_spans(order), "batch": 2, "time_buffer": 1}
         if any(s.parent is not None and s.parent not in {t.event_id for t in spans} for s in spans):
             yield {"spans": enc_spans(spans), "batch": 100, "time_buffer": 1, "skip_inconsistent": True}
+    # two rounds on one holder: the second round's spans lie later (or earlier) than everything of the first round
+    later = [s._replace(job_id="L" + s.job_id, event_id="L" + s.event_id, parent=None if s.parent is None else "L" + s.parent,
+                        start=s.start + 10 * MIN, end=s.end + 10 * MIN) for s in chain("A", 2, "W1") + chain("B", 3, "W1", True)]
+    earlier = [s._replace(job_id="E" + s.job_id, event_id="E" + s.event_id, parent=None if s.parent is None else "E" + s.parent,
+                          start=s.start - 10 * MIN, end=s.end - 10 * MIN) for s in chain("A", 2, "W2")]
+    for first in combos[:40:4]:
+        for second in (later, earlier, later + earlier):
+            for tb in (0, 1):
+                yield {"rounds": [enc_spans(first), enc_spans(second)], "batch": 100, "time_buffer": tb}
 
 
 # ============================================================================= C12: streaming
@@ -585,6 +644,9 @@ def domain_c12(tier: str, rng: random.Random) -> Iterable[dict[str, Any]]:
         sp = chain("A", n1, "W1") + [s._replace(job_id="A", event_id="x" + s.event_id, parent=None if s.parent is None else "x" + s.parent)
                                      for s in chain("A", n2, "W2", True)] + chain("B", 2, "W2")
         shared.append(sp)
+    # workflow names that differ only in capitalisation, with interleaving trace ids (any collation of the ORDER BY other than the one
+    # the grouping compares with breaks the runs)
+    shared.append(chain("A", 2, "Checkout") + chain("B", 2, "checkout") + chain("C", 3, "Checkout", True) + chain("D", 1, "checkout") + chain("E", 2, "payment"))
     for sp in shared:
         for b in batches:
             yield {"spans": enc_spans(sp), "batch": b, "filter": None}
